@@ -86,6 +86,60 @@ theorem list_render_items_any (ordered : Bool) (items : List (Int × Str)) :
       simp only [fmtListItems, if_true, List.zip_cons_cons, List.flatMap_cons]
       rw [he]
 
+/-- **the text of a list chunk is its item lines** (`createListChunk` after efed37d): what
+`render` and `stepElem` put into the chunk is the rendering of `list_render_items_any` with
+nothing but trailing white space taken away — nothing is taken from the front, so the first
+item stands behind its own indentation like every other one. -/
+theorem list_text_lines (ordered : Bool) (items : List (Int × Str)) :
+    ∃ ws, (∀ c ∈ ws, isSpace c = true) ∧
+      listText ordered items ++ ws = fmtListItems ordered items [] (-1) :=
+  trimRight_tail _
+
+/-- …hence, white space aside, a list chunk is the item lines (the form `doc_chunks_cover` and
+`element_cover` use for `render (.list o items)`) -/
+theorem list_text_strip (ordered : Bool) (items : List (Int × Str)) :
+    strip (listText ordered items) = strip (fmtListItems ordered items [] (-1)) :=
+  strip_trimRight _
+
+/-- **a nested first item keeps its indentation**: the chunk text of a list starts with two
+blanks per level of its FIRST item and that item's marker (`-`, or `1.` in an ordered list) —
+for any level, any text, any items after it. -/
+theorem list_text_first_item_indent (ordered : Bool) (lvl : Int) (txt : Str) (rest : List (Int × Str)) :
+    ∃ tail, listText ordered ((lvl, txt) :: rest)
+      = indent lvl ++ (if ordered then [49, 46] else [45]) ++ tail := by
+  have h1 : Tabula.A1.dec 1 = [49] := by simp [Tabula.A1.dec, Tabula.A1.decAux]
+  have hc : (if lvl ≤ (-1 : Int) then ([] : List (Int × Nat)).filter (fun e => !(decide (lvl < e.1))) else []) = [] := by
+    split <;> rfl
+  unfold listText
+  cases ordered with
+  | false =>
+    simp only [fmtListItems, Bool.false_eq_true, if_false, List.append_assoc]
+    rw [show indent lvl ++ ([45, 32] ++ (txt ++ ([10] ++ fmtListItems false rest
+        (if lvl ≤ -1 then ([] : List (Int × Nat)).filter (fun e => !(decide (lvl < e.1))) else []) lvl)))
+      = indent lvl ++ 45 :: (32 :: (txt ++ ([10] ++ fmtListItems false rest
+        (if lvl ≤ -1 then ([] : List (Int × Nat)).filter (fun e => !(decide (lvl < e.1))) else []) lvl))) from rfl,
+      trimRight_keep _ 45 _ (by decide)]
+    exact ⟨_, rfl⟩
+  | true =>
+    simp only [fmtListItems, if_true, hc, ctrGet, List.find?_nil, Nat.zero_add, h1, List.append_assoc]
+    rw [show indent lvl ++ ([49] ++ ([46, 32] ++ (txt ++ ([10] ++ fmtListItems true rest (ctrSet [] lvl 1) lvl))))
+      = (indent lvl ++ [49]) ++ 46 :: (32 :: (txt ++ ([10] ++ fmtListItems true rest (ctrSet [] lvl 1) lvl))) from by simp,
+      trimRight_keep _ 46 _ (by decide)]
+    exact ⟨trimRight (32 :: (txt ++ ([10] ++ fmtListItems true rest (ctrSet [] lvl 1) lvl))), by simp⟩
+
+/-- the witness of the repaired defect: a list that starts at level 1 -/
+example : listText false [(1, [97]), (0, [98])] = [32, 32, 45, 32, 97, 10, 45, 32, 98] := by decide
+
+/-- the pinned code (`strings.TrimSpace` on the item lines, `listTextOld`; finding
+`C15/list-depth-ragdoc-first-item-nested`, repaired by efed37d): the chunk text of the list
+`[a at level 1, b at level 0]` was `- a\n- b` — the first item's indentation, its nesting depth,
+was gone; white space aside (the reading of C12's cover clause) the two texts agree. -/
+theorem list_text_pinned_counterexample :
+    listTextOld false [(1, [97]), (0, [98])] = [45, 32, 97, 10, 45, 32, 98] ∧
+    listTextOld false [(1, [97]), (0, [98])] ≠ listText false [(1, [97]), (0, [98])] ∧
+    strip (listTextOld false [(1, [97]), (0, [98])]) = strip (listText false [(1, [97]), (0, [98])]) := by
+  decide
+
 /-- undoing `escapeMarkdownCell`'s pipe escape: `\|` stands for `|` -/
 def unescapeCell : Str → Str
   | 92 :: 124 :: rest => 124 :: unescapeCell rest
